@@ -40,7 +40,13 @@ def main():
         print("/repo is dirty, refusing"); return 2
     rc, o = sh(f"git apply {dst}/patch.diff", cwd="/repo")
     if rc:
-        print("patch does not apply to /repo", o); return 2
+        # /repo has moved on (later fix: commits): apply with fuzz and keep the rebased diff next to the original
+        rc, o = sh(f"patch -p1 -F3 -s --no-backup-if-mismatch -i {dst}/patch.diff", cwd="/repo")
+        if rc:
+            sh("git checkout -- .", cwd="/repo")
+            print("patch does not apply to /repo", o); return 2
+        sh(f"git diff -- websocket > {dst}/patch.rebased.diff", cwd="/repo")
+        out["rebased"] = True
     try:
         props = [pid] if not run_all else [f"C{i:02d}" for i in range(1, 21)]
         res = {}
